@@ -7,6 +7,7 @@ mod proto;
 use proto::*;
 
 mod bio;
+mod chan_adm;
 mod chan_bundle;
 mod chan_corrupt;
 mod chan_eid;
@@ -50,6 +51,10 @@ fn run_line(line: &str) -> String {
         "SCHED" => chan_now::sched(args),
         "VALIDATE" => chan_ops::validate(args),
         "OPS" => chan_ops::ops(args),
+        "ADMENC" => chan_adm::admenc(args),
+        "ADMSPEC" => chan_adm::admspec(args),
+        "ADMDEC" => chan_adm::admdec(args),
+        "SRB" => chan_adm::srb(args),
         "CORR" => chan_corrupt::corr(args),
         "JSON" => chan_json::json(args),
         "JTOK" => chan_json::jtok(args),
@@ -80,6 +85,10 @@ fn run_line(line: &str) -> String {
 fn main() {
     if std::env::args().nth(1).as_deref() == Some("--one-sched") {
         chan_now::sched_child_main();
+        return;
+    }
+    if std::env::args().nth(1).as_deref() == Some("--one-srb") {
+        chan_adm::srb_child_main();
         return;
     }
     panic::set_hook(Box::new(|_| {}));
